@@ -1,6 +1,7 @@
 (* C12 — a compiled query is a pure function of its input stack.
    Api.v models the C API over one compiled query; each result set owns its
-   state.  (That NO state is shared between result sets in the C++ — statics,
+   state; the input stack is a value (the model has no operation that could
+   change it: that the C++ does not is checked by dumping it before and after).  (That NO state is shared between result sets in the C++ — statics,
    caches, mutable members — is what the correspondence check examines.) *)
 From Coq Require Import ZArith NArith List Bool.
 From Dwgrep Require Import Radix Value Words Tree Engine Build Api ApiProofs.
@@ -22,6 +23,38 @@ Corollary C12_fresh_run : forall P blks prog fuel r h,
   = answers_for r (run_hist P blks prog fuel [] (filter (concerns r) h)).
 Proof. intros. apply history_projection. reflexivity. Qed.
 Print Assumptions C12_fresh_run.
+
+(* Stronger form: what result set r is told is a function of r's own
+   operations alone (`view r h`: its executes, pulls, destroys, in order) -
+   computed by `run_local`, which has no table and no identifiers. *)
+Theorem C12_history_is_local : forall P blks prog fuel r h t,
+  answers_for r (run_hist P blks prog fuel t h) = run_local P blks prog fuel (tget t r) (view r h).
+Proof. exact history_is_local. Qed.
+Print Assumptions C12_history_is_local.
+
+(* Two executions driven the same way - in one history or in two, under any
+   identifiers, with anything else going on in between - are told the same. *)
+Theorem C12_same_view_same_answers : forall P blks prog fuel r1 r2 h1 h2 t1 t2,
+  tget t1 r1 = tget t2 r2 -> view r1 h1 = view r2 h2 ->
+  answers_for r1 (run_hist P blks prog fuel t1 h1) = answers_for r2 (run_hist P blks prog fuel t2 h2).
+Proof. exact same_view_same_answers. Qed.
+Print Assumptions C12_same_view_same_answers.
+
+(* An execution on `input` pulled n times, wherever it sits in a history,
+   yields what a fresh run on `input` pulled n times yields. *)
+Theorem C12_as_a_fresh_run : forall P blks prog fuel r h t input n,
+  view r h = LExec input :: repeat LPull n ->
+  answers_for r (run_hist P blks prog fuel t h) = fresh_run P blks prog fuel input n.
+Proof. exact as_a_fresh_run. Qed.
+Print Assumptions C12_as_a_fresh_run.
+
+(* A result set abandoned half-way and the identifier executed again: the new
+   execution starts over, whatever was pulled before. *)
+Theorem C12_reexecute_starts_over : forall P blks prog fuel r h t l input n,
+  view r h = l ++ LExec input :: repeat LPull n ->
+  exists before, answers_for r (run_hist P blks prog fuel t h) = before ++ fresh_run P blks prog fuel input n.
+Proof. exact reexecute_starts_over. Qed.
+Print Assumptions C12_reexecute_starts_over.
 
 Example C12_nonvacuous :
   let tc := ValueM.mktc 2 3 4 5 [] in
